@@ -151,6 +151,14 @@ impl<C> Server<C> {
             rrl.verif_shift_time(secs);
         }
     }
+
+    /// Verification hook: like [`Server::verif_rrl_shift_time`], with
+    /// millisecond resolution.
+    pub fn verif_rrl_shift_time_millis(&self, millis: u64) {
+        if let Some(ref rrl) = self.rrl {
+            rrl.verif_shift_time_millis(millis);
+        }
+    }
 }
 
 impl<C> Server<C>
